@@ -454,7 +454,7 @@ func replayC02(env *mc.Env, raw json.RawMessage) (bool, string) {
 func init() {
 	mc.Register(&mc.Check{
 		ID: "C02",
-		Rule: "histories of <= 3 transactions on two accounts: the first transaction is every program of the resource fragment (header + <= 2 statements from the 45 resource templates: create, move through variables/arrays/dictionaries/optionals/second-value transfer/swap/casts/nested fields/attachments/storage of both accounts/contract field, destroy; 3 statements in the thorough tier); " +
+		Rule: "histories of <= 3 transactions on two accounts: the first transaction is every program of the resource fragment (header + <= 2 statements from the 56 resource templates: create, move through variables/arrays/dictionaries/optionals/second-value transfer/swap/casts/nested fields/attachments/storage of both accounts/contract field, destroy; 3 statements in the thorough tier); " +
 			"every distinct resulting storage state (canonical decoded dump, uuids erased; capped) is continued with every storage/contract-vault program, twice; both engines. After every successful transaction the conservation equation S' = S + C - D is checked on uuids (C from the program's own log, D from delivered ResourceDestroyed events, S decoded from the committed ledger), together with duplicate-freedom of D and S', freshness of C and the attachment count; " +
 			"non-trivial = distinct (engine, depth, program shape, start state) whose transaction changed the stored population",
 		Assumptions: []string{
